@@ -421,6 +421,72 @@ def fam_fn_codec(rng, n, prefix):
     return out
 
 
+# ---------- the validation module (K9): five public functions, boundary values of every parameter ----------
+V_DIMS = [0, 1, 239, 240, 241, 319, 320, 321, 640, 1080, 1920, 2160, 2161, 4096, 4097, 65536, 2**32 - 1]
+V_FPS = [0.0, -0.0, 5e-324, -1.0, 1.0, 23.976, 30.0, 60.0, 120.0, 120.00000000000001, 121.0, 1e300, float("inf"), float("-inf")]
+V_RATES = [0, 1, 8000, 44100, 48000, 96000, 192000, 192001, 2**32 - 1]
+V_CH = [0, 1, 2, 6, 8, 9, 255]
+V_ACODECS = ["aac-lc", "aac-main", "aac-he", "aac-hev2", "aac-ssr", "aac-ltp", "opus", "none"]
+V_VCODECS = ["h264", "h265", "av1", "vp9"]
+
+
+def v_fps(rng):
+    return "%x" % (NAN if rng.chance(1, 12) else f64bits(rng.choice(V_FPS)))
+
+
+def v_vframe(rng, codec):
+    k = rng.below(6)
+    if k == 0:
+        return b""
+    if k == 1:
+        return rng.bytes(rng.range(1, 12))
+    if k < 4:
+        return video_key(rng, codec)
+    return video_delta(rng, codec)
+
+
+def v_aframe(rng, codec):
+    k = rng.below(8)
+    if k == 0:
+        return b""
+    if k == 1:
+        return rng.bytes(rng.range(1, 10))
+    good = audio_frame(rng, codec if codec != "none" else "aac-lc")
+    if k == 2:
+        return good[:rng.range(1, 6)]
+    if k == 3:
+        g = bytearray(good); g[0] = rng.choice([0xFE, 0x00, 0xFF]); g[1] = rng.choice([0x0F, 0xE1, 0xF1, g[1]])
+        return bytes(g)
+    return good
+
+
+def fam_validation(rng, n, prefix):
+    out = []
+    for i in range(n):
+        cid = "%s%d" % (prefix, i)
+        k = rng.below(10)
+        vc, ac = rng.choice(V_VCODECS), rng.choice(V_ACODECS)
+        if k < 2:
+            out.append(fn_case(cid, "validate_video_config", vc, "%x" % rng.choice(V_DIMS), "%x" % rng.choice(V_DIMS), v_fps(rng)))
+        elif k < 4:
+            out.append(fn_case(cid, "validate_audio_config", ac, "%x" % rng.choice(V_RATES), "%x" % rng.choice(V_CH)))
+        elif k < 6:
+            out.append(fn_case(cid, "validate_video_frame", vc, hx(v_vframe(rng, vc)), rng.below(2)))
+        elif k < 8:
+            out.append(fn_case(cid, "validate_audio_frame", ac, hx(v_aframe(rng, ac))))
+        else:
+            o = lambda x: "~" if rng.chance(1, 6) else x
+            good_dims = rng.chance(2, 3)
+            w = "%x" % (rng.choice([640, 1920, 320, 4096]) if good_dims else rng.choice(V_DIMS))
+            h = "%x" % (rng.choice([480, 1080, 240, 2160]) if good_dims else rng.choice(V_DIMS))
+            out.append(fn_case(cid, "validate_muxing_config",
+                               o(vc), o(w), o(h), o(v_fps(rng) if not good_dims else "%x" % f64bits(30.0)),
+                               o(hx(v_vframe(rng, vc))), rng.below(2),
+                               o(ac), o("%x" % (48000 if good_dims else rng.choice(V_RATES))), o("%x" % (2 if good_dims else rng.choice(V_CH))),
+                               o(hx(v_aframe(rng, ac)))))
+    return out
+
+
 # ---------- rejection matrix (C05/C04/C03/C06): every rejection reason x position x codec ----------
 def reject_variants(rng, cfg, t_ok, last_v_t, last_a_t, small=False):
     """calls that are rejected for exactly one reason each; timestamps chosen so that the
